@@ -6,10 +6,10 @@ package checks
 // executed by the real interpreter and compared with the reference evaluator.
 
 import (
-	"strings"
 	"encoding/json"
 	"fmt"
 	"math"
+	"strings"
 	"time"
 
 	r "github.com/DemoHn/Zn/pkg/runtime"
